@@ -9,6 +9,7 @@ import heapq
 
 from hypothesis import strategies as st
 from metapype.eml import rule as R
+from .shipped import RULES
 from metapype.model.node import Node
 
 from . import contentgen, lang
@@ -103,7 +104,7 @@ class Tables:
 
     def __init__(self):
         self.known = dict(R.node_mappings)
-        self.rules = R.rules_dict
+        self.rules = RULES
         self.cost = {e: INF for e in self.known}
         self.minword = {}
         self._fix()
@@ -339,7 +340,9 @@ _typed_strings = st.sampled_from(["x", "5", "-91", "181", "2020", "2020-13-01", 
                                   "&amp;", "<para>p</para>", "read", "meter", "column", "all",
                                   # format-hostile and edge-case text (message formatting, parsers)
                                   "{", "}", "{}", "{0}", "{x}", "%", "%s", "%d", "%(a)s", "\\", "\x00", "a\nb", "\n", "1\n",
-                                  "٣", "１２", "x" * 300, "²⁰²⁰", "₂₀₂₀", "②①②①", "201¹", "①", "½", "²", "12:00\n", "2020-01-01\n", "http://a.b/\n", "'", "\""])
+                                  "٣", "１２", "x" * 300, "²⁰²⁰", "₂₀₂₀", "②①②①", "201¹", "①", "½", "²", "12:00\n", "2020-01-01\n", "http://a.b/\n", "'", "\"",
+                                  # text that cannot be encoded as UTF-8 (lone surrogates; the library has an error class for it)
+                                  "\ud800", "a\udfffb", "http://a.b/\ud800", "2020\udc00", "5\ud800", "12:00:00\udbff"])
 _any_content = st.one_of(st.none(), _typed_strings, _unicode)
 
 
@@ -353,7 +356,7 @@ def _attrs_for_name(name):
     r = _attr_cache.get(name)
     if r is None:
         rn = R.node_mappings.get(name)
-        declared = sorted(R.rules_dict[rn][0]) if rn in R.rules_dict else []
+        declared = sorted(RULES[rn][0]) if rn in RULES else []
         keys = st.sampled_from(declared + ["id", "system", "scope", "lang", "foreign", "xml:lang"]) | _attr_odd_keys
         r = _attr_cache[name] = st.dictionaries(keys, _attr_vals, max_size=3) | st.dictionaries(keys, _attr_vals, min_size=4, max_size=7)
     return r
@@ -455,7 +458,7 @@ MUTATIONS = ["drop", "dup", "swap", "rename-known", "rename-unknown", "content",
 _NEEDS = {
     "drop": lambda n: n.get("k"), "dup": lambda n: n.get("k"), "swap": lambda n: len(n.get("k", [])) >= 2,
     "attr-drop": lambda n: n.get("a"), "clear-kids": lambda n: n.get("k"),
-    "attr-bad": lambda n: R.node_mappings.get(n["n"]) in R.rules_dict and R.rules_dict[R.node_mappings[n["n"]]][0],
+    "attr-bad": lambda n: R.node_mappings.get(n["n"]) in RULES and RULES[R.node_mappings[n["n"]]][0],
 }
 
 
@@ -498,7 +501,7 @@ def mutated(draw, base, min_mut=1, max_mut=3, kinds=None):
         elif m == "attr-bad":
             a = node.setdefault("a", {})
             rn = R.node_mappings.get(node["n"])
-            declared = sorted(R.rules_dict[rn][0]) if rn in R.rules_dict else []
+            declared = sorted(RULES[rn][0]) if rn in RULES else []
             if declared:
                 a[pre.pick(declared)] = pre.pick(["zzBad", "", "Document"])
         elif m == "attr-foreign":
